@@ -66,9 +66,10 @@ CHECKS = {
    ref="§4.2"),
  'C15': dict(
    text="Proof (ToInt32/ToUint32 clause only): Kani contract on the real to_int32/to_uint32 over all 2^64 f64 bit patterns against an integer-only specification of "
-        "'truncate then wrap modulo 2^32'; the link to the 13 operator sites, the compound-assignment table and parseInt's radix is a syntactic side obligation with a native replay battery (testing, not proof).",
-   note="Trusted: Kani/CBMC float semantics (bit-precise except f64 %, which the contracted code does not use). NOT carried: shortest round-trip printing, literal/Number() "
-        "parsing, toFixed/toPrecision/toExponential/toString(radix) (DESIGN §4.5).",
+        "'truncate then wrap modulo 2^32'; the link to the 13 operator sites, the compound-assignment table and parseInt's radix is a syntactic side obligation with a native replay battery (testing, not proof). "
+        "The printing / parsing / formatting clauses are tested (not proved) by the same battery against exact decimal arithmetic over the quantifier's structured families.",
+   note="Trusted: Kani/CBMC float semantics (bit-precise except f64 %, which the contracted code does not use). NOT carried by any contract: shortest round-trip printing, literal/Number() "
+        "parsing, toFixed/toPrecision/toExponential/toString(radix) - float formatting is outside Verus and CBMC; these clauses are only TESTED (DESIGN §4.5).",
    technique="contract-based deductive verification (Kani function contract, loop-free harness over the full f64 domain)",
    ref="§4.5"),
  'C18': dict(
